@@ -22,6 +22,8 @@ func init() {
 	reg("C15", "C15.R8", "E6", "the joined value left in the event does not alias the reusable join buffer (same rule as C13.A)", 1, ruleActionBufferViews)
 	reg("C15", "C15.R9", "E2+E3", "a line put into the stream cannot be overwritten by the time-out event (same rule as C02.R7)", 1, ruleStreamPutFIFO)
 	reg("C15", "C15.R10", "E2+E6", "an event continues an open run only by the verdict of the continue check on its own value (no constant verdict)", 1, ruleContinuationDecidedByCheck)
+	reg("C15", "C15.R11", "E2+E6", "a stream waiting in the middle of a run stays visible to the time-out heartbeat: blocked-list positions stay exact (same rule as C04.R11)", 2, ruleBlockedIndex)
+	reg("C15", "C15.R12", "E6", "the size limit of a joined event cuts a PREFIX of the run: whether a line is appended depends on the accumulated size only, not on that line's length", 1, ruleJoinLimitIsPrefix)
 }
 
 func ruleReceiverLocalState(c *Ctx, r *Rule) {
